@@ -115,4 +115,14 @@ def flagged (own : Own) (c : List Block) (pend : List Tx) (w : Wid) : List Spec.
 def flaggedDeposits (own : Own) (c : List Block) (pend : List Tx) (w : Wid) : List Spec.Chain.Deposit :=
   (Spec.Chain.deposits own c w).filter (fun d => !d.withdrawn && spentByPending pend d.tx d.idx)
 
+/-- what an index "outpoint ↦ pending spenders" must contain: every outpoint some pending transaction
+    spends, with exactly the pending transactions spending it -/
+def spenderIndex (pend : List Tx) : List ((TxId × Nat) × List TxId) :=
+  let ops := (pend.flatMap (fun t => t.ins.map (fun i => (i.tx, i.idx)))).eraseDups
+  ops.map (fun op => (op, (pend.filter (fun t => t.ins.any (fun i => i.tx = op.1 && i.idx = op.2))).map (·.id)))
+
+/-- the unconfirmed credits: every output of a pending transaction that pays an owned address -/
+def pendingCredits (e : Env) (pend : List Tx) : List (TxId × Nat × Nat) :=
+  pend.flatMap (fun t => (t.outs.zipIdx).filterMap (fun (o, i) => if ownedOut e o then some (t.id, i, o.amt) else none))
+
 end MW.Spec.Pending
